@@ -78,5 +78,12 @@ class _Task:
         self.run = run
 
     def __call__(self, he):
+        from vf.harness import deadline, Hang
         h, e = he
-        return self.run(h + [e])
+        try:
+            with deadline(300):
+                return self.run(h + [e])
+        except Hang as x:
+            # the code under test did not come back: a finding of its own; the state is not expanded further
+            return {"key": {"hang": h + [e]}, "enabled": [], "viols": [{"cause": "does-not-terminate", "msg": "%s after %r" % (x, h + [e])}],
+                    "label": "hang"}
